@@ -265,11 +265,11 @@ func c04Session(c *fw.Ctx, r *rand.Rand, idx int) {
 
 func init() {
 	fw.Register(&fw.Monitor{
-		ID:        "C04",
-		Level:     "exploration",
-		Race:      true,
-		Technique: "runtime protocol monitor: recorded UCI sessions (driver driven in-process through its channels, race detector on) checked for exactly-once bestmove per go, legality against the rules oracle, and no late duplicates",
-		Rule: "one evaluation = one go exchange: the go is sent, left to end by itself (depth / movetime / clock) or stopped (infinite, bare go on an unlimited engine), then closed by an isready/readyok round trip; bestmove lines between the go and that readyok are counted (exactly 1) and checked against the oracle's legal moves of the position last set up (0000 only without legal move); later bestmoves are late duplicates; sessions = 4 engine recipes x options (hash 0/1/4 MB, noise, depth, own book on/off) x positions (startpos/FEN + moves, continuation, mate, stalemate, claimable threefold, clock >= 100, insufficient material, single legal move) x 8 go variants incl. repeated go and the stale-movetime-timer scenario; distinct = distinct session transcripts",
+		ID:          "C04",
+		Level:       "exploration",
+		Race:        true,
+		Technique:   "runtime protocol monitor: recorded UCI sessions (driver driven in-process through its channels, race detector on) checked for exactly-once bestmove per go, legality against the rules oracle, and no late duplicates",
+		Rule:        "one evaluation = one go exchange: the go is sent, left to end by itself (depth / movetime / clock) or stopped (infinite, bare go on an unlimited engine), then closed by an isready/readyok round trip; bestmove lines between the go and that readyok are counted (exactly 1) and checked against the oracle's legal moves of the position last set up (0000 only without legal move); later bestmoves are late duplicates; sessions = 4 engine recipes x options (hash 0/1/4 MB, noise, depth, own book on/off) x positions (startpos/FEN + moves, continuation, mate, stalemate, claimable threefold, clock >= 100, insufficient material, single legal move) x 8 go variants incl. repeated go and the stale-movetime-timer scenario; distinct = distinct session transcripts",
 		Assumptions: []string{"a go the script does not stop is given 60 s before it is stopped by the monitor; the answer is then still owed (decided on the stop/readyok events, not on the time)"},
 		Setup:       validateOracle,
 		Timeout:     minutes(15, 120),
